@@ -423,10 +423,15 @@ func c34Run(c *core.Ctx) {
 		"(Lsh/Rsh: every uint8 count in the thorough tier), compared with the native Go operator instantiated for the kind; calls that do not compile are counted as not offered. " +
 		"part 2: container methods (Len Cap Index SetIndex AddrIndex Append AppendString Copy CopyString Slice Slice3 TryIndex DelIndex Send Recv TrySend TryRecv Close) on slices, arrays, maps, " +
 		"channels and strings of several element kinds over container states × index/argument alphabets, compared (results, final container state, panic class) with the Go builtin/operator written in Go. " +
+		"part 2b (memory): Append in its call forms (spread operand, method value, chained, receiver as its own operand, 0/1/2 explicit arguments, the same call site evaluated twice), AppendString, Copy, CopyString, Slice, Slice3 " +
+		"over receivers {nil, empty, capacity 0 inside an array, empty with spare capacity, full, spare capacity, capacity limited by a 3-index slice} × operands {nil, empty, full, spare capacity} × every small overlap of both inside one array; " +
+		"array methods on an addressable array VALUE and Copy from a slice of the receiver itself: besides the values the complete sharing relation (slot identity over the full-capacity windows) result↔receiver, result↔operand, result↔result " +
+		"and the effect of writing through every slot of the result on the backing arrays are compared with the builtin. " +
 		"non-trivial = distinct (method, kind, shape, operands) whose Go outcome is a panic, a value different from both operands or true/non-zero; for containers every distinct (scenario, argument tuple)")
 	c.Assume("native Go operators and builtins compiled by the installed toolchain are the reference",
 		"Cmp is compared with the three-way comparison built from the Go operators < and >",
-		"TryRecv/TrySend are compared with select-with-default; blocking Send/Recv states are not exercised")
+		"TryRecv/TrySend are compared with select-with-default; blocking Send/Recv states are not exercised",
+		"the capacity of a slice returned by a GROWING append is implementation-defined and not compared; whether the result shares memory with the receiver or the operand is")
 	c01TuneWorker()
 	e := &c01Enum{c: c, tier: tierCore, stores: []string{"local"}, memo: map[string][]interface{}{}}
 	if c.Thorough() {
@@ -513,6 +518,7 @@ func c34Replay(c *core.Ctx, raw json.RawMessage) {
 type c34Scen struct {
 	name string
 	src  string                              // interpreter function literal
+	nin  int                                 // >0: only the first nin elements of a tuple are passed (the others make backing arrays observable)
 	args func() [][]interface{}              // fresh argument tuples (containers are mutable: built anew for each side)
 	ref  func(a []interface{}) []interface{} // the Go builtin/operator, in Go
 	post func(a, res []interface{}) []interface{}
@@ -570,8 +576,12 @@ func c34Containers(c *core.Ctx, w *c01World, onlyArg int, onlyScen string) {
 				}
 			})
 			gp := twin.Catch(func() {
-				in := make([]reflect.Value, len(ga))
-				for i, a := range ga {
+				n := len(ga)
+				if sc.nin > 0 {
+					n = sc.nin
+				}
+				in := make([]reflect.Value, n)
+				for i, a := range ga[:n] {
 					in[i] = reflect.ValueOf(a)
 				}
 				for _, o := range fv.Call(in) {
